@@ -595,6 +595,12 @@ def int_binop(op, a, b):
                 for (t_, c_) in ((p_.arg(0), p_.arg(1)), (p_.arg(1), p_.arg(0))):
                     if z3.is_int_value(c_) and 2 <= c_.as_long() <= 65536 and _is_pow2_minus1(c_.as_long() - 1):
                         _fact(z3.Implies(z3.And(t_ >= 0, 0 <= q_, q_ < c_.as_long()), smt.bor(x, y) == p_ + q_))
+        # same with a literal on one side: c | q == c + q for 0 <= q < (lowest set bit of c), c = t * 2^k
+        for (c_, q_) in ((cx, y), (cy, x)):
+            if c_ is not None and 0 < c_ < (1 << 30):
+                low_ = c_ & -c_
+                if 2 <= low_ <= 65536:
+                    _fact(z3.Implies(z3.And(0 <= q_, q_ < low_), smt.bor(x, y) == c_ + q_))
         return VInt(smt.bor(x, y))
     if op == '^':
         if cx is not None and cy is not None:
@@ -642,6 +648,12 @@ def _bv_binop(op, a, b):
         w = x.size()
         _oblig('bv-shr-amount', z3.ULT(y, z3.BitVecVal(w, w)))
         return VInt(x >> y)          # arithmetic shift == Python's floor shift
+    if op in ('//', '%'):
+        # floor division / modulo by a positive constant of a non-negative value == unsigned division
+        cy = z3.simplify(y)
+        if z3.is_bv_value(cy) and cy.as_signed_long() > 0:
+            _oblig('bv-div-nonneg-dividend', x >= 0)
+            return VInt(z3.UDiv(x, y) if op == '//' else z3.URem(x, y))
     raise Unsupported('bv op ' + op)
 
 
